@@ -34,11 +34,11 @@ func (verifT) ParamStrings(p any) []string                               { retur
 // scheduling point: exactly the window between a request's two selections.
 // Requests are told apart by the generation number they ask for.
 type verifSel struct {
-	p     *RegProcessor
-	calls  [4]int32 // request id (generation - 10) -> selections served by this (old) selector
-	failed [4]int32 // the old selector refused that request (e.g. unknown generation)
-	kick  chan struct{} // native replay: lets the reload start at the first selection
-	once  sync.Once
+	p      *RegProcessor
+	calls  [4]int32      // request id (generation - 10) -> selections served by this (old) selector
+	failed [4]int32      // the old selector refused that request (e.g. unknown generation)
+	kick   chan struct{} // native replay: lets the reload start at the first selection
+	once   sync.Once
 }
 
 func (s *verifSel) Select(seed []byte, gen uint, libver uint, v6 bool) (*phantoms.PhantomIP, error) {
